@@ -54,6 +54,8 @@ def gen_cases(rng, n, tier):
         if not c["vertices"]:
             c["int32"] = False  # zero vertices with an int32 face array is C02's dtype clause (fixes/C02-empty-int32-faces.diff)
         cases.append(c)
+    for c in cases:
+        c["kind"] = S.histogram_kind(c)
     return cases
 
 
@@ -88,4 +90,4 @@ def oracle(c, o):
 def classify(c, o, failure, disagrees):
     if c.get("kind") == "unique_bincount":
         return None
-    return S.negative_index_class(c, o, failure)
+    return S.negative_index_class(c, o, failure, disagrees)
